@@ -196,22 +196,35 @@ def verify_unit(unit, scratch):
 
 
 def verify_canary(unit, scratch):
-    """vacuity guard: with `false` added to every postcondition, every function under
-    contract must FAIL.  Returns the list of functions that still verify (vacuous)."""
+    """vacuity guard: `assert(false)` is planted at the start of every function body under
+    contract and at the start of every annotated loop body; each of them must FAIL (a
+    contradictory precondition, invariant or assumed contract would make them pass).
+    Returns the list of functions where `false` is provable."""
     path, report = build_unit(unit, scratch, canary=True)
-    res = run_verus(path, multiple_errors=0)
+    res = run_verus(path, multiple_errors=8)
     js = res["json"]
     if js is None or "verification-results" not in js:
         raise NoVerdict("canary build of unit `%s` rejected: %s" % (unit, res["stderr"][-1500:]))
+    text = open(path, encoding="utf-8").read().split("\n")
+    canary_lines = [n + 1 for n, l in enumerate(text) if "// vacuity canary" in l]
     errs = [e for e in parse_stderr(res["stderr"]) if e["level"] == "error" and e["line"] is not None]
-    failed_labels = set()
+    failed_lines = {e["line"] for e in errs if "assertion failed" in e["msg"]}
+    # a canary whose function hit the resource limit is undecided, not vacuous
+    rl_labels = set()
     for e in errs:
-        it = item_for_line(report, e["line"])
-        if it:
-            failed_labels.add(it["label"])
-    expect = [it["label"] for it in report["items"] if it.get("is_fn") and it.get("has_body") and it.get("has_contract")]
-    vacuous = [l for l in expect if l not in failed_labels]
-    return {"expected_to_fail": len(expect), "failed": len(expect) - len(vacuous), "vacuous": vacuous, "wall": res["wall"]}
+        if "rlimit" in e["msg"].lower() or "resource limit" in e["msg"].lower():
+            it = item_for_line(report, e["line"])
+            if it:
+                rl_labels.add(it["label"])
+    vacuous = []
+    for ln in canary_lines:
+        if ln not in failed_lines:
+            it = item_for_line(report, ln)
+            label = it["label"] if it else "line %d" % ln
+            if label in rl_labels:
+                continue
+            vacuous.append("%s (line %d: %s)" % (label, ln, text[ln - 1].strip()))
+    return {"planted": len(canary_lines), "failed_as_required": len(canary_lines) - len(vacuous), "vacuous": vacuous, "wall": res["wall"]}
 
 
 # --------------------------------------------------------------------------
